@@ -123,7 +123,9 @@ def add_ecs(cube, ecs, shape, voff=0.0, ishift=None):
             cube.extra_coords.add(nm[0], axes[0], v * u.m, physical_types=f"custom:q{k}")
         elif kind == "time":
             # (Time tables in the usual scales, by table position: instants matter, not clock readings)
-            cube.extra_coords.add(nm[0], axes[0], Time(T0.isot, scale=["utc", "tai", "tt"][k % 3]) + v * u.min)
+            # (whole minutes plus, for every second table, a sub-millisecond part that a string format does not keep)
+            fine = (np.arange(len(v)) * 0.1234567e-3 * u.s) if k % 2 else 0 * u.s
+            cube.extra_coords.add(nm[0], axes[0], Time(T0.isot, scale=["utc", "tai", "tt"][k % 3]) + v * u.min + fine)
         elif kind == "sky1":
             cube.extra_coords.add(tuple(nm), axes[0], SkyCoord(*other_angle_units(v * u.deg / 10, (v / 2 - 5) * u.deg / 10, k), frame=sky_frame(k)), mesh=False,
                                   **sky_types(k))
